@@ -30,8 +30,10 @@ Cmd(name, arg) == [op |-> name, arg |-> arg]
 
 Init == h = <<>> /\ phase = "new" /\ runs = 0
 
-Run(b, ns, d, t0) ==
-  /\ h' = Append(h, Cmd("run", [budget |-> b, nShell |-> ns, discard |-> d, timeout0 |-> t0]))
+\* targets: nShell in {1, 6, 25}; nEff "small" (met shortly after exploration ends: the call returns True in
+\* the middle of the sampling phase and a later call with larger targets continues) or "large"
+Run(b, ns, ne, d, t0) ==
+  /\ h' = Append(h, Cmd("run", [budget |-> b, nShell |-> ns, nEff |-> ne, discard |-> d, timeout0 |-> t0]))
   /\ phase' = "started" /\ runs' = runs + 1
 Toggle(v) == /\ phase = "started"
              /\ h' = Append(h, Cmd("toggle", v)) /\ UNCHANGED <<phase, runs>>
@@ -42,8 +44,8 @@ Resume == /\ HasFile /\ phase = "started"
           /\ h' = Append(h, Cmd("resume", "")) /\ UNCHANGED <<phase, runs>>
 
 Next == /\ Len(h) < MaxLen
-        /\ \/ \E b \in Budgets, ns \in {1, 6}, d \in BOOLEAN, t0 \in {FALSE} : Run(b, ns, d, t0)
-           \/ Run("inf", 1, FALSE, TRUE)                 \* timeout = 0: returns without starting a batch
+        /\ \/ \E b \in Budgets, ns \in {1, 6, 25}, ne \in {"small", "large"}, d \in BOOLEAN : Run(b, ns, ne, d, FALSE)
+           \/ Run("inf", 1, "large", FALSE, TRUE)        \* timeout = 0: returns without starting a batch
            \/ \E v \in {"T", "F", "bad"} : Toggle(v)
            \/ \E a \in Observers : Observe(a)
            \/ Posterior
